@@ -1,4 +1,4 @@
-//@@ unit props=C14,C06 rlimit=1500
+//@@ unit props=C14,C06 rlimit=800
 // Unit xlsbfml: the [MS-XLSB] token renderer `parse_formula` of src/xlsb/mod.rs (verbatim text, one 330-line function, recursive) and
 // check_len, under Verus.
 //
@@ -27,7 +27,11 @@
 //   outside the oracle -- the sniffing defect is the registered C19 finding of unit xlsbrec), str::replace(char, &str) (axiom_replace_quote),
 //   format! expansion R13 (verif_fmt_arg + Display axioms for u16 / u32 / u64 = decimal digits), read_* (common/bytes.rs, Kani), push_column
 //   (unit colname), the closure of `and_then` (spec written on it, verified by Verus against its body).
-// Declared rewrites: r13 (format!), r4 (check_len's message), mutparams (`mut rgce`), r6 on `for w in args.windows(2)`.
+// Declared rewrites: r13 (format!), r4 (check_len's message), mutparams (`mut rgce`), r6 on `for w in args.windows(2)`, and one ad-hoc rewrite:
+//   the two statements `let col = [rgce[4], X]; let col = read_u16(&col);` of the PtgRef arm are moved verbatim into the helper verif_pair_u16
+//   (verified by Verus on its own) because the array literal starts a quantifier matching loop inside the big function.
+// Cost: the text after every arm is written exactly as the arm's statements build it (left-nested appends) and handed to small LINK LEMMAS that
+//   regroup it (extensional reasoning only there); inside parse_formula everything is congruence + lemma calls: 60 s, rlimit 4.2e8.
 // Findings: findings/xlsbfml.json (all nine repaired: "fixed"); the demonstration-only finding about PtgArray stays with findings/xlsbf.json.
 #![feature(allocator_api)]
 #![feature(pattern)]
@@ -570,7 +574,7 @@ proof fn lemma_sb_empty(f: Seq<char>)
 // (plain equality; the regrouping of the arm's appends is done once, in the link lemmas below) / the whole text after an in-place arm
 pub open spec fn xlsb_attrsum_text(scope: bool, got: Seq<char>, want: Seq<char>) -> bool { scope ==> got =~= want }
 pub open spec fn xlsb_binary_operator_placed(scope: bool, got: Seq<char>, want: Seq<char>) -> bool { scope ==> got =~= want }
-pub open spec fn xlsb_binary_operator_text(scope: bool, got: Seq<char>, want: Seq<char>) -> bool { scope ==> got =~= want }
+pub open spec fn xlsb_binary_operator_text(scope: bool, got: Seq<char>, want: Seq<char>) -> bool { scope ==> got == want }
 pub open spec fn xlsb_paren_text(scope: bool, got: Seq<char>, want: Seq<char>) -> bool { scope ==> got =~= want }
 pub open spec fn xlsb_ptgarea3d_text(scope: bool, got: Seq<char>, want: Seq<char>) -> bool { scope ==> got == want }
 pub open spec fn xlsb_ptgarea_text(scope: bool, got: Seq<char>, want: Seq<char>) -> bool { scope ==> got == want }
@@ -589,6 +593,28 @@ pub open spec fn xlsb_ptgreferr_text(scope: bool, got: Seq<char>, want: Seq<char
 pub open spec fn xlsb_ptgstr_text(scope: bool, got: Seq<char>, want: Seq<char>) -> bool { scope ==> got == want }
 pub open spec fn xlsb_unary_minus_text(scope: bool, got: Seq<char>, want: Seq<char>) -> bool { scope ==> got =~= want }
 pub open spec fn xlsb_unary_plus_text(scope: bool, got: Seq<char>, want: Seq<char>) -> bool { scope ==> got =~= want }
+
+// the text after an operand arm is the text before it plus what the arm appended (one name per arm; matched by congruence, see the link lemmas)
+pub open spec fn appended_area(after: Seq<char>, want: Seq<char>) -> bool { after == want }
+pub open spec fn appended_area3d(after: Seq<char>, want: Seq<char>) -> bool { after == want }
+pub open spec fn appended_areaerr(after: Seq<char>, want: Seq<char>) -> bool { after == want }
+pub open spec fn appended_areaerr3d(after: Seq<char>, want: Seq<char>) -> bool { after == want }
+pub open spec fn appended_array(after: Seq<char>, want: Seq<char>) -> bool { after == want }
+pub open spec fn appended_bool(after: Seq<char>, want: Seq<char>) -> bool { after == want }
+pub open spec fn appended_err(after: Seq<char>, want: Seq<char>) -> bool { after == want }
+pub open spec fn appended_exp(after: Seq<char>, want: Seq<char>) -> bool { after == want }
+pub open spec fn appended_extend(after: Seq<char>, want: Seq<char>) -> bool { after == want }
+pub open spec fn appended_int(after: Seq<char>, want: Seq<char>) -> bool { after == want }
+pub open spec fn appended_memfunc(after: Seq<char>, want: Seq<char>) -> bool { after == want }
+pub open spec fn appended_missarg(after: Seq<char>, want: Seq<char>) -> bool { after == want }
+pub open spec fn appended_name(after: Seq<char>, want: Seq<char>) -> bool { after == want }
+pub open spec fn appended_namex(after: Seq<char>, want: Seq<char>) -> bool { after == want }
+pub open spec fn appended_num(after: Seq<char>, want: Seq<char>) -> bool { after == want }
+pub open spec fn appended_ref(after: Seq<char>, want: Seq<char>) -> bool { after == want }
+pub open spec fn appended_ref3d(after: Seq<char>, want: Seq<char>) -> bool { after == want }
+pub open spec fn appended_referr(after: Seq<char>, want: Seq<char>) -> bool { after == want }
+pub open spec fn appended_referr3d(after: Seq<char>, want: Seq<char>) -> bool { after == want }
+pub open spec fn appended_str(after: Seq<char>, want: Seq<char>) -> bool { after == want }
 
 // ---- link lemmas: the text after an arm, written exactly as the arm's statements build it (left-nested appends: matched by congruence
 // inside the 330-line function, no extensional reasoning there), regrouped here into `f + <what was appended>`
@@ -686,7 +712,7 @@ proof fn lemma_xlsb_ptgref3d_text(sh: Seq<char>, d: Seq<u8>, got: Seq<char>)
 proof fn lemma_xlsb_ptgarea3d_text(sh: Seq<char>, d: Seq<u8>, got: Seq<char>)
     requires
         d.len() >= 14,
-        got == sh + seq!['!'] + code_cell(le16(d.subrange(10, 12)) as u16, le32(d.subrange(2, 6))) + seq![':'] + code_cell(le16(d.subrange(12, 14)) as u16, le32(d.subrange(6, 10))),
+        got == sh + seq!['!'] + (code_cell(le16(d.subrange(10, 12)) as u16, le32(d.subrange(2, 6))) + seq![':'] + code_cell(le16(d.subrange(12, 14)) as u16, le32(d.subrange(6, 10)))),
     ensures
         got == sh + seq!['!'] + xb_area(d.skip(2)),
 {
@@ -786,8 +812,8 @@ pub mod m {
 use super::*;
 verus! {
 //@@ fn src/xlsb/mod.rs parse_formula props=C14 entry ret=res r13 mutparams
-//@@ replace /let col = \[rgce\[4\], rgce\[5\] & 0x3F\];\s*let col = read_u16\(&col\);/ Verus: the array literal `[a, b]` handed to read_u16 as a slice starts a quantifier matching loop between vstd's array-view and Seq::new axioms inside this 330-line function (47% of all instantiations); the two statements are moved, verbatim, into the helper verif_pair_u16 below, which Verus verifies on its own (same statements, same callee read_u16)
-let col = verif_pair_u16(rgce[4], rgce[5] & 0x3F);
+//@@ replace /let col = \[rgce\[4\], ([^;]*?)\];\s*let col = read_u16\(&col\);/ Verus: the array literal `[a, b]` handed to read_u16 as a slice starts a quantifier matching loop between vstd's array-view and Seq::new axioms inside this 330-line function (47% of all instantiations); the two statements are moved, verbatim, into the helper verif_pair_u16 below, which Verus verifies on its own (same statements, same callee read_u16)
+let col = verif_pair_u16(rgce[4], \g<1>);
 //@@ sig
     decreases __p_rgce@.len(),
 //@@ closure 0
@@ -941,6 +967,8 @@ let col = verif_pair_u16(rgce[4], rgce[5] & 0x3F);
 //@@ before /formula\.push\(':'\);/#1of2
                 let ghost g1_1 = formula@;
                 let ghost col1_1 = col;
+//@@ after /let s = UTF_16LE\.decode\([^;]*;/
+                let ghost chars_s = cow_ref(&s)@;
 //@@ before /\}\n {12}0x3b \| 0x5b \| 0x7b => \{/
                 proof {
                     assert(stack@ =~= st_in.push(blen(f_in) as usize));
@@ -949,7 +977,7 @@ let col = verif_pair_u16(rgce[4], rgce[5] & 0x3F);
                     lemma_link_cell((f_in + sh).push('!'), col, rw, formula@);
                     lemma_link_sh(f_in, sh, code_cell(col, rw), formula@);
                     let got = sh + seq!['!'] + code_cell(col, rw);
-                    assert(formula@ == f_in + got);
+                    assert(appended_ref3d(formula@, f_in + got));
                     lemma_S_push(f_in, st_in, got);
                     lemma_xlsb_ptgref3d_text(sh, d_in, got);
                     //# C14.xlsb_ptgref3d_text
@@ -966,7 +994,7 @@ let col = verif_pair_u16(rgce[4], rgce[5] & 0x3F);
                     lemma_link_area((f_in + sh).push('!'), code_cell(col1_0, rw1), code_cell(col, rw2), formula@);
                     lemma_link_sh(f_in, sh, code_cell(col1_0, rw1) + seq![':'] + code_cell(col, rw2), formula@);
                     let got = sh + seq!['!'] + (code_cell(col1_0, rw1) + seq![':'] + code_cell(col, rw2));
-                    assert(formula@ == f_in + got);
+                    assert(appended_area3d(formula@, f_in + got));
                     lemma_S_push(f_in, st_in, got);
                     lemma_xlsb_ptgarea3d_text(sh, d_in, got);
                     //# C14.xlsb_ptgarea3d_text
@@ -978,7 +1006,7 @@ let col = verif_pair_u16(rgce[4], rgce[5] & 0x3F);
                     let sh = sheets@[ixti as int]@;
                     lemma_link_sh(f_in, sh, "#REF!"@, formula@);
                     let got = sh + seq!['!'] + "#REF!"@;
-                    assert(formula@ == f_in + got);
+                    assert(appended_referr3d(formula@, f_in + got));
                     lemma_S_push(f_in, st_in, got);
                     //# C14.xlsb_ptgreferr3d_text
                     assert(xlsb_ptgreferr3d_text(le16(d_in) < ctx.sheets.len(), got, ctx.sheets[le16(d_in)] + seq!['!'] + "#REF!"@));
@@ -989,7 +1017,7 @@ let col = verif_pair_u16(rgce[4], rgce[5] & 0x3F);
                     let sh = sheets@[ixti as int]@;
                     lemma_link_sh(f_in, sh, "#REF!"@, formula@);
                     let got = sh + seq!['!'] + "#REF!"@;
-                    assert(formula@ == f_in + got);
+                    assert(appended_areaerr3d(formula@, f_in + got));
                     lemma_S_push(f_in, st_in, got);
                     //# C14.xlsb_ptgareaerr3d_text
                     assert(xlsb_ptgareaerr3d_text(le16(d_in) < ctx.sheets.len(), got, ctx.sheets[le16(d_in)] + seq!['!'] + "#REF!"@));
@@ -999,7 +1027,7 @@ let col = verif_pair_u16(rgce[4], rgce[5] & 0x3F);
                     assert(stack@ =~= st_in.push(blen(f_in) as usize));
                     lemma_link_empty(f_in);
                     let got = Seq::<char>::empty();
-                    assert(formula@ == f_in + got);
+                    assert(appended_exp(formula@, f_in + got));
                     lemma_S_push(f_in, st_in, got);
                 }
 //@@ before /\}\n {12}0x12 => \{/
@@ -1045,7 +1073,7 @@ let col = verif_pair_u16(rgce[4], rgce[5] & 0x3F);
                     assert(stack@ =~= st_in.push(blen(f_in) as usize));
                     lemma_link_empty(f_in);
                     let got = Seq::<char>::empty();
-                    assert(formula@ == f_in + got);
+                    assert(appended_missarg(formula@, f_in + got));
                     lemma_S_push(f_in, st_in, got);
                     //# C14.xlsb_ptgmissarg_text
                     assert(xlsb_ptgmissarg_text(true, got, Seq::<char>::empty()));
@@ -1054,10 +1082,14 @@ let col = verif_pair_u16(rgce[4], rgce[5] & 0x3F);
                 proof {
                     assert(stack@ =~= st_in.push(blen(f_in) as usize));
                     let by = d_in.subrange(2, 2 + 2 * le16(d_in));
-                    let chars = if has_bom(by) { dec_sniffed(by) } else { dec16(by) };
-                    lemma_link_str(f_in, dq(chars), formula@);
-                    let got = quoted(chars);
-                    assert(formula@ == f_in + got);
+                    assert(d_in.subrange(0, 2)[0] == d_in[0] && d_in.subrange(0, 2)[1] == d_in[1]);
+                    assert(le16(d_in.subrange(0, 2)) == le16(d_in));
+                    reveal_strlit("\"\"");
+                    assert("\"\""@ =~= seq!['"', '"']);
+                    axiom_replace_quote(chars_s, "\"\""@);
+                    lemma_link_str(f_in, dq(chars_s), formula@);
+                    let got = quoted(chars_s);
+                    assert(appended_str(formula@, f_in + got));
                     lemma_S_push(f_in, st_in, got);
                     //# C14.xlsb_ptgstr_text
                     assert(xlsb_ptgstr_text(!has_bom(by), got, quoted(dec16(by))));
@@ -1067,7 +1099,7 @@ let col = verif_pair_u16(rgce[4], rgce[5] & 0x3F);
                     assert(stack@ =~= st_in.push(blen(f_in) as usize));
                     lemma_link_empty(f_in);
                     let got = Seq::<char>::empty();
-                    assert(formula@ == f_in + got);
+                    assert(appended_extend(formula@, f_in + got));
                     lemma_S_push(f_in, st_in, got);
                 }
 //@@ before /\}\n {12}0x1C => \{/
@@ -1087,7 +1119,7 @@ let col = verif_pair_u16(rgce[4], rgce[5] & 0x3F);
                 proof {
                     assert(stack@ =~= st_in.push(blen(f_in) as usize));
                     let got = err_text(d_in[0] as int)->Some_0;
-                    assert(formula@ == f_in + got);
+                    assert(appended_err(formula@, f_in + got));
                     lemma_S_push(f_in, st_in, got);
                     //# C14.xlsb_ptgerr_text
                     assert(xlsb_ptgerr_text(err_text(d_in[0] as int) is Some, got, err_text(d_in[0] as int)->Some_0));
@@ -1096,7 +1128,7 @@ let col = verif_pair_u16(rgce[4], rgce[5] & 0x3F);
                 proof {
                     assert(stack@ =~= st_in.push(blen(f_in) as usize));
                     let got = (if d_in[0] == 0 { "FALSE"@ } else { "TRUE"@ });
-                    assert(formula@ == f_in + got);
+                    assert(appended_bool(formula@, f_in + got));
                     lemma_S_push(f_in, st_in, got);
                     //# C14.xlsb_ptgbool_text
                     assert(xlsb_ptgbool_text(d_in[0] <= 1, got, (if d_in[0] == 0 { "FALSE"@ } else { "TRUE"@ })));
@@ -1106,7 +1138,7 @@ let col = verif_pair_u16(rgce[4], rgce[5] & 0x3F);
                     assert(stack@ =~= st_in.push(blen(f_in) as usize));
                     lemma_link_fmt(f_in, dec(le16(d_in) as nat), formula@);
                     let got = dec(le16(d_in) as nat);
-                    assert(formula@ == f_in + got);
+                    assert(appended_int(formula@, f_in + got));
                     lemma_S_push(f_in, st_in, got);
                     //# C14.xlsb_ptgint_text
                     assert(xlsb_ptgint_text(true, got, dec(le16(d_in) as nat)));
@@ -1116,7 +1148,7 @@ let col = verif_pair_u16(rgce[4], rgce[5] & 0x3F);
                     assert(stack@ =~= st_in.push(blen(f_in) as usize));
                     lemma_link_fmt(f_in, display::<f64>(f64_of_bits(le64(d_in))), formula@);
                     let got = display::<f64>(f64_of_bits(le64(d_in)));
-                    assert(formula@ == f_in + got);
+                    assert(appended_num(formula@, f_in + got));
                     lemma_S_push(f_in, st_in, got);
                     //# C14.xlsb_ptgnum_text
                     assert(xlsb_ptgnum_text(true, got, display::<f64>(f64_of_bits(le64(d_in)))));
@@ -1126,7 +1158,7 @@ let col = verif_pair_u16(rgce[4], rgce[5] & 0x3F);
                     assert(stack@ =~= st_in.push(blen(f_in) as usize));
                     lemma_link_empty(f_in);
                     let got = Seq::<char>::empty();
-                    assert(formula@ == f_in + got);
+                    assert(appended_array(formula@, f_in + got));
                     lemma_S_push(f_in, st_in, got);
                 }
 //@@ before /\}\n {12}0x23 \| 0x43 \| 0x63 => \{/
@@ -1136,7 +1168,7 @@ let col = verif_pair_u16(rgce[4], rgce[5] & 0x3F);
                     assert(stack@ =~= st_in.push(blen(f_in) as usize));
                     if !(1 <= le32(d_in) <= names@.len()) { lemma_link_empty(f_in); }
                     let got = (if 1 <= le32(d_in) <= names@.len() { names@[le32(d_in) - 1].0@ } else { Seq::<char>::empty() });
-                    assert(formula@ == f_in + got);
+                    assert(appended_name(formula@, f_in + got));
                     lemma_S_push(f_in, st_in, got);
                     //# C14.xlsb_ptgname_text
                     assert(xlsb_ptgname_text(1 <= le32(d_in) <= ctx.names.len(), got, ctx.names[le32(d_in) - 1]));
@@ -1146,7 +1178,7 @@ let col = verif_pair_u16(rgce[4], rgce[5] & 0x3F);
                     assert(stack@ =~= st_in.push(blen(f_in) as usize));
                     lemma_link_ref(f_in, d_in[5], col_name(col as int), dec(row as nat), formula@);
                     let got = dollar(d_in[5] & 0x40 != 0x40) + col_name(col as int) + dollar(d_in[5] & 0x80 != 0x80) + dec(row as nat);
-                    assert(formula@ == f_in + got);
+                    assert(appended_ref(formula@, f_in + got));
                     lemma_S_push(f_in, st_in, got);
                     lemma_xlsb_ptgref_text(d_in, row as int, col as int, got);
                     //# C14.xlsb_ptgref_text
@@ -1161,7 +1193,7 @@ let col = verif_pair_u16(rgce[4], rgce[5] & 0x3F);
                     lemma_link_cell(g1_1.push(':'), col, rw2, formula@);
                     lemma_link_area(f_in, code_cell(col1_1, rw1), code_cell(col, rw2), formula@);
                     let got = code_cell(col1_1, rw1) + seq![':'] + code_cell(col, rw2);
-                    assert(formula@ == f_in + got);
+                    assert(appended_area(formula@, f_in + got));
                     lemma_S_push(f_in, st_in, got);
                     lemma_xlsb_ptgarea_text(d_in, got);
                     //# C14.xlsb_ptgarea_text
@@ -1171,7 +1203,7 @@ let col = verif_pair_u16(rgce[4], rgce[5] & 0x3F);
                 proof {
                     assert(stack@ =~= st_in.push(blen(f_in) as usize));
                     let got = "#REF!"@;
-                    assert(formula@ == f_in + got);
+                    assert(appended_referr(formula@, f_in + got));
                     lemma_S_push(f_in, st_in, got);
                     //# C14.xlsb_ptgreferr_text
                     assert(xlsb_ptgreferr_text(true, got, "#REF!"@));
@@ -1180,7 +1212,7 @@ let col = verif_pair_u16(rgce[4], rgce[5] & 0x3F);
                 proof {
                     assert(stack@ =~= st_in.push(blen(f_in) as usize));
                     let got = "#REF!"@;
-                    assert(formula@ == f_in + got);
+                    assert(appended_areaerr(formula@, f_in + got));
                     lemma_S_push(f_in, st_in, got);
                     //# C14.xlsb_ptgareaerr_text
                     assert(xlsb_ptgareaerr_text(true, got, "#REF!"@));
@@ -1189,14 +1221,14 @@ let col = verif_pair_u16(rgce[4], rgce[5] & 0x3F);
                 proof {
                     assert(stack@ =~= st_in.push(blen(f_in) as usize));
                     let got = f@;
-                    assert(formula@ == f_in + got);
+                    assert(appended_memfunc(formula@, f_in + got));
                     lemma_S_push(f_in, st_in, got);
                 }
 //@@ before /\}\n {12}_ => return Err\(XlsbError::Ptg\(ptg\)\)/
                 proof {
                     assert(stack@ =~= st_in.push(blen(f_in) as usize));
                     let got = "EXTERNAL_WB_NAME"@;
-                    assert(formula@ == f_in + got);
+                    assert(appended_namex(formula@, f_in + got));
                     lemma_S_push(f_in, st_in, got);
                 }
 //@@ end
